@@ -109,7 +109,17 @@ pub fn prepare(case: &DripCase) -> Prepared {
         }
     }
     let case = &DripCase { gens, ..case.clone() };
-    let inputs = case.spec.make_inputs(&case.gens);
+    let mut inputs = case.spec.make_inputs(&case.gens);
+    // packets -> stream: one case in four carries a packet that fills the (drip) output stream
+    // exactly, and one that is a sample short of that
+    if matches!(case.spec, BlockSpec::VecToStreamU8) && case.gens[0].seed % 4 == 0 {
+        if let Some(InputData::PU8(pk)) = inputs.first_mut() {
+            let cap = stream_bytes(&case.spec, case.out_pages);
+            let at = (case.gens[0].seed as usize / 4) % (pk.len() + 1);
+            pk.insert(at, (0..cap).map(|i| (i * 7 + 3) as u8).collect());
+            pk.insert(0, (0..cap - 1).map(|i| (i * 5 + 1) as u8).collect());
+        }
+    }
     let len0 = inputs.first().map(|d| d.len()).unwrap_or(0);
     let script = case.spec.script_tags(&case.gens, len0);
     let mut tags: Vec<Vec<ITag>> = vec![Vec::new(); inputs.len()];
